@@ -2,7 +2,7 @@
    Directives in force: those of ExtrOcamlBasic only (bool, option, unit, list, prod, sumbool,
    sumor extracted to OCaml's own; N, positive, nat stay inductive).  No Extract Constant of ours. *)
 From Coq Require Import Arith NArith List.
-From Blue Require Import Scrunch.ModelBits Scrunch.Model Scrunch.ModelWT Scrunch.ModelPrefixWT.
+From Blue Require Import Scrunch.ModelBits Scrunch.Model Scrunch.ModelWT Scrunch.ModelPrefixWT Scrunch.ModelSparse Scrunch.ModelRRR Scrunch.ModelPrefixRRR.
 Require Import ExtrOcamlBasic.
 Extraction Language OCaml.
 Extraction "../ocaml/scrunch/gen_scrunch.ml"
@@ -16,4 +16,7 @@ Extraction "../ocaml/scrunch/gen_scrunch.ml"
   sigma_K char_to_sigma sa_index_to_sigma sa_index_to_t sa_range_for sa_range_for_sigma
   sigma_construct translate_text suffix_array inverse psi_of inverse_and_psi
   fw_tree fw_enc fw_dec pt_access pt_rank_q pt_select_q
+  sv_from_indices sv_construct sv_access sv_rank sv_select
+  rt_of rt_access rt_rank_q rt_select_q
+  rr_construct rr_access rr_rank rr_select rr_select0 rrr_tables
   N.of_nat N.to_nat.
